@@ -14,7 +14,7 @@ INFO = {
 }
 
 PATTERNS = ['/x', '/x/', '/x/<a>', '/<a>', '/<a>/<b?>', '/z/<p*>', '/x/<n:int>', '/', '/y/<q+>/', '/<a>/', '/x/<a>/<b>']
-METHODS = [None, ['GET'], ['POST'], ['GET', 'POST'], ['put', 'delete'], ['HEAD'], ['OPTIONS', 'PATCH'], []]
+METHODS = [None, ['GET'], ['POST'], ['GET', 'POST'], ['put', 'delete'], ['HEAD'], ['OPTIONS', 'PATCH'], [], ['get'], ['Get', 'post'], ['head', 'PUT']]
 BEH = ['answer', 'answer', 'raise403', 'ret404', 'nb403', 'nbret404', 'boom', 'raise500', 'ret503', 'nb500']
 PATHS = ['/x', '/x/', '/x/1', '/x/a', '/z', '/', '/x/a/b', '/y/1/2/', '/y/1', '//x', '/y', '/z/q/r']
 REQM = ['GET', 'HEAD', 'POST', 'PUT', 'DELETE', 'OPTIONS', 'get', 'FOO']
